@@ -244,6 +244,25 @@ def refusal_matrix():
                                     {"op": "upload", "index": index, "sub": sub}, ok_after,
                                     {"op": "upload", "index": 0x2100, "sub": 0}]
                             yield {"kind": "server", "od": od, "ops": ops}
+    # arrays: listed and template-described members under every access type
+    for access in ("rw", "ro", "wo", "const"):
+        for dt in (rc.UNSIGNED16, rc.INTEGER24, rc.DOMAIN):
+            od = [good, {"kind": "array", "index": 0x2200, "name": "arr", "members": [
+                {"sub": 0, "name": "n", "dt": rc.UNSIGNED8, "access": "ro", "default": 8},
+                {"sub": 1, "name": "el", "dt": dt, "access": access,
+                 "default": 7 if dt in rc.INTEGERS else b"default-bytes"},
+                {"sub": 3, "name": "el3", "dt": dt, "access": access}]}]
+            for sub in (1, 2, 3, 6, 255):
+                for data, stl in ((b"\x01\x02", "exp"), (b"\x01\x02\x03", "seg_size"), (b"123456789", "seg_nosize")):
+                    yield {"kind": "server", "od": od, "ops": [
+                        ok_before, {"op": "upload", "index": 0x2200, "sub": sub},
+                        {"op": "download", "index": 0x2200, "sub": sub, "data": data, "style": stl},
+                        {"op": "upload", "index": 0x2200, "sub": sub}, ok_after]}
+                yield {"kind": "client_api", "od": od, "ops": [
+                    {"op": "upload", "index": 0x2200, "sub": sub},
+                    {"op": "download", "index": 0x2200, "sub": sub, "data": b"\x05\x06", "force": False},
+                    {"op": "download", "index": 0x2200, "sub": sub, "data": b"\x05\x06\x07", "force": True},
+                    {"op": "upload", "index": 0x2100, "sub": 0}]}
     od = [good, {"kind": "record", "index": 0x2001, "name": "rec", "members": [
         {"sub": 0, "name": "n", "dt": rc.UNSIGNED8, "access": "ro", "default": 2},
         {"sub": 2, "name": "m", "dt": rc.UNSIGNED16, "access": "rw"}]}]
